@@ -375,6 +375,8 @@ def run_one(unit, run, workdir, tier='quick', keep=False, extra_flags='', trace_
     if tier == 'thorough':
         timeout *= 4
     solver = extra_flags
+    if run.get('solver') and '--sat-solver' not in solver:
+        solver = (solver + ' --sat-solver ' + run['solver']).strip()
     ob = ('--object-bits %s ' % run['objbits']) if run.get('objbits') else ''
     cb = 'cbmc %s--no-malloc-may-fail --no-standard-checks %s %s %s' % (ob, flags, solver, b)
     res['cmd'] = ' && '.join(x for x in (cmd1, gi, cb) if x)
